@@ -83,6 +83,8 @@ var defaultInitOK = []string{
 	"internal/bytealg", "internal/stringslite", "internal/itoa", "hash/crc32", "html", "net/http/internal", "net/http/internal/ascii",
 	"golang.org/x/net/idna", "vendor/golang.org/x/net/http/httpguts", "vendor/golang.org/x/net/idna",
 	"internal/oserror", "regexp/syntax",
+	"net/http", "net", "vendor/golang.org/x/net/http2/hpack", "vendor/golang.org/x/text/unicode/norm",
+	"vendor/golang.org/x/text/unicode/bidi", "vendor/golang.org/x/text/secure/bidirule", "net/http/httputil", "net/http/httptrace",
 }
 
 // ExploreConfig describes one harness entry.
